@@ -17,6 +17,7 @@ type placeCfg struct {
 	disc0     []bool    // target 0 discovered?
 	lastClass []int     // health class of one shard (the last one, or the first one when firstToo)
 	firstToo  bool      // additionally enumerate the class on the FIRST shard (last shard in sync)
+	unknown0  bool      // additionally: the explorer does not know target 0 (lagging behind discovery)
 	heads     []int64
 	idles     []int64
 	newTgt    []int // 0 none, 1 small new target, 2 big new target
@@ -36,7 +37,11 @@ func placeGen(p placeCfg) func(emit func(*h1.Scenario)) {
 		if p.firstToo {
 			npos = 2
 		}
-		dims = append(dims, len(p.extras), len(p.disc0), len(p.lastClass), len(p.heads), len(p.idles), len(p.newTgt), len(p.postFail), len(p.noRelieve), npos)
+		nexp := 1
+		if p.unknown0 {
+			nexp = 2
+		}
+		dims = append(dims, len(p.extras), len(p.disc0), len(p.lastClass), len(p.heads), len(p.idles), len(p.newTgt), len(p.postFail), len(p.noRelieve), npos, nexp)
 		product(dims, func(ix []int) {
 			if ix[base+8] == 1 && p.lastClass[ix[base+2]] == shInSync {
 				return // same scenario as position "last"
@@ -48,7 +53,11 @@ func placeGen(p placeCfg) func(emit func(*h1.Scenario)) {
 				if t == 0 {
 					disc = p.disc0[ix[base+1]]
 				}
-				b.Target(uint64(1+t), p.sizes[t][0], p.sizes[t][1], disc, "up")
+				exp := "up"
+				if t == 0 && ix[base+9] == 1 {
+					exp = "" // Explore.Get answers nil for it
+				}
+				b.Target(uint64(1+t), p.sizes[t][0], p.sizes[t][1], disc, exp)
 			}
 			for s := 0; s < p.nShards; s++ {
 				for t := 0; t < nT; t++ {
